@@ -156,6 +156,7 @@ LinearClauses(T, e) ==
       env == EnvOf(e.env)
   IN   Fail("C16", "LinearMaskIffSomeUnknownOfSize",
             Len(e.lin_mask) = N /\ \A k \in 0..(N - 1) : (e.lin_mask[k + 1] = 1) <=> LinMask(cfg, env)[k])
+  \cup Fail("C16", "LinearRewardAndDoneAreTheInnerOnes", e.lin_same = 1)
   \cup Fail("C16", "LinearObservationHasLengthN", Len(e.lin_obs) = N)
   \cup Fail("C16", "LinearObservationIsPerSizeSum",
             Len(e.lin_obs) = N =>
